@@ -68,7 +68,12 @@ func TestC06(t *testing.T) {
 
 func TestC07(t *testing.T) {
 	runProp(t, "C07", func(t *rapid.T) *core.Case {
-		c := drawGeneral(t, gen.Profile{MaxDepth: 3, NoStartEnd: true, Nameless: true}, gen.WindowOpts{ForceRange: true, Long: true},
+		p := gen.Profile{MaxDepth: 3, NoStartEnd: true, Nameless: true}
+		if rapid.IntRange(0, 3).Draw(t, "c07focus") == 0 {
+			// state that operators keep per batch position: aggregation tables and their per-step parameters
+			p.Focus, p.MaxDepth, p.VaryParams = "agg", 2, true
+		}
+		c := drawGeneral(t, p, gen.WindowOpts{ForceRange: true, Long: true},
 			gen.DataOpts{Specials: true, MaxSeries: 10, Histogram: true, Twins: true})
 		n := c.NumSteps()
 		a := rapid.IntRange(0, n-1).Draw(t, "sub0")
